@@ -149,6 +149,9 @@ impl Acc {
                 self.rep.cases += v[0] as usize;
                 self.rep.nontrivial_cases += v[1] as usize;
             }
+            if let crate::rt::Ev::Note("capped", _) = e {
+                self.rep.capped = true;
+            }
         }
         let machinery = match &r.status {
             Status::StepCap => Some("step cap hit (possible livelock) - inconclusive".to_string()),
@@ -179,16 +182,25 @@ impl Acc {
                 }
             }
             Err(f) => {
-                if self.rep.violations.len() < MAX_VIOLATIONS
-                    && !self.rep.violations.iter().any(|v| v.sig == f.sig)
-                {
-                    self.rep.violations.push(Violation {
-                        scenario: s.name.clone(),
-                        order: order_name(order).to_string(),
-                        choices: r.trace.clone(),
-                        sig: f.sig,
-                        message: f.msg,
-                    });
+                let mut all = vec![f];
+                // loop scenarios may log failures of several distinct signatures
+                for x in crate::e2::logged_fails(&r.log) {
+                    if !all.iter().any(|y| y.sig == x.sig) {
+                        all.push(x);
+                    }
+                }
+                for f in all {
+                    if self.rep.violations.len() < MAX_VIOLATIONS
+                        && !self.rep.violations.iter().any(|v| v.sig == f.sig)
+                    {
+                        self.rep.violations.push(Violation {
+                            scenario: s.name.clone(),
+                            order: order_name(order).to_string(),
+                            choices: r.trace.clone(),
+                            sig: f.sig,
+                            message: f.msg,
+                        });
+                    }
                 }
             }
         }
@@ -226,6 +238,7 @@ impl Acc {
 /// Explore shard `shard` of `shards` of a scenario (all its canonical orders).
 pub fn explore(s: &Scenario, shard: usize, shards: usize, deadline: Option<Instant>) -> ScenarioReport {
     let t0 = Instant::now();
+    crate::rt::set_deadline(deadline);
     let acc = std::rc::Rc::new(std::cell::RefCell::new(Acc {
         s: s.clone(),
         rep: ScenarioReport {
